@@ -18,7 +18,7 @@ def step_after_advancement(prev):
     f = prev["fields"]
     st = f["step"]
     if st == 5:     # SENDING_EOF_ACK_PDU
-        if prev["tracker"] or f["metadata_missing"]:
+        if f["disposition"] != 1 and (prev["tracker"] or f["metadata_missing"]):
             return 2 if f["metadata_missing"] else 6
         return 7
     return st
